@@ -144,6 +144,11 @@ func (b *broker) react(c *simConn, p *Packet, mode respMode) {
 				send(encAck(tPUBREL, m.id))
 			}
 		}
+		if b.w.scn.Burst && !mode.drop {
+			for b.nextIn < len(b.w.scn.Inbound) {
+				b.inject(c)
+			}
+		}
 		return
 	}
 	if !bc.connected {
